@@ -52,3 +52,21 @@ def ops2_lang():
         assoc('Contain', 'Box', 'container', '1', '0..2', 'inside', 'Item'),
         assoc('Pair', 'Crate', 'crateA', '1..*', '2', 'itemsB', 'Item'),
     ], lang_id='org.verif.ops2')
+
+
+def sem_lang(aa_steps=(), bb_steps=(), dd_steps=()):
+    """SEM skeleton (C01, C15, C02 existence): Base <- Aa <- Bb, Base <- Cc, unrelated Dd."""
+    return spec([
+        asset('Base', steps=[step('t', 'or')],
+              variables=[('vdown', F('down')), ('vmix', UNI(F('peers'), F('down')))]),
+        asset('Aa', sup='Base', steps=list(aa_steps),
+              variables=[('vrights', F('rights')), ('vcut', DIF(F('peers'), F('down')))]),
+        asset('Bb', sup='Aa', steps=list(bb_steps)),
+        asset('Cc', sup='Base'),
+        asset('Dd', steps=[step('t', 'or')] + list(dd_steps)),
+    ], [
+        assoc('Tree', 'Base', 'up', '0..1', '*', 'down', 'Base'),
+        assoc('Peer', 'Base', 'peers', '*', '*', 'peersOf', 'Base'),
+        assoc('Cross', 'Aa', 'lefts', '*', '*', 'rights', 'Cc'),
+        assoc('Own', 'Dd', 'owner', '1', '*', 'owned', 'Base'),
+    ], lang_id='org.verif.sem')
